@@ -33,9 +33,9 @@ BASES = [1, 1, 2, 3, 7, 10, 40, 50, 1000, 12345, 10 ** 6,
 KS = [0, 0, 0, 0, 1, 1, 2, 3, 5, 8, 11, 14]
 CS = [Fraction(1), Fraction(7, 10), Fraction(13, 10), Fraction(3, 2)]
 
-F_DUP = "c08-duplicate-keys"
+F_DUP = None        # duplicate keys: fixed in /repo b3f6345 - always a violation now
 F_LAST = "c08-level-count-anisotropic"
-F_ASSERT = "c08-assert-extreme-anisotropy"
+F_ASSERT = None     # internal assertion: fixed in /repo 1758f7a - always a violation now
 F_TINY = "c08-no-unit-below-half-picometre"
 F_CHUNKS = "c08-incompatible-chunk-sizes"
 F_ZERO = "c08-zero-half-chunk"
@@ -71,9 +71,9 @@ def input_regions(size, res, target, ms):
     cap = bool(ms) and L0 > ms
     return {
         "t": t, "d": d, "n": n, "L": L, "cap_binding": cap,
-        F_DUP: any(r < best * 2 ** di for r, di in zip(res, d)),
+        "axis_rounded_up": any(r < best * 2 ** di for r, di in zip(res, d)),
         F_LAST: (not cap) and any(ni >= 2 and ni + di > L for ni, di in zip(n, d)),
-        F_ASSERT: any(level_asserts(d, t, l) for l in range(L)),
+        "old_assert_region": any(level_asserts(d, t, l) for l in range(L)),
         F_TINY: float(best) * 1e3 <= 0.5,     # binary64 product, as in round(resolution_nm * 1e3)
     }
 
@@ -234,22 +234,20 @@ def judge(R, case, impl, mod, info_in, size, res, target, ms, tiny_ok=True):
     reg = input_regions(size, fr, target, ms)
     kg = KEYS_GUARD.get(_ck(size, res, target, ms))
     if kg is not None and mod[0] == "ok":
-        R.count(f"keys_guard:{kg}:axis-rounded-up:{reg[F_DUP]}")
-        if not kg and not reg[F_DUP]:
-            # no axis ratio was rounded up, so the minimum resolution is finest * 2^level at every level
-            R.disagree("keys_guard fails although no axis ratio was rounded up", case, kg, reg[F_DUP])
+        R.count(f"keys_guard:{kg}")
+        if not kg:
+            # C08_keys_distinct_on_guard needs it; it only states that the binary64 products scale exactly
+            R.disagree("keys_guard fails on a generated description (a float product left the normal range?)",
+                       case, kg, True)
+    if reg["old_assert_region"]:
+        R.count("former-assert-region:" + (impl[0] if impl[0] == "ok" else impl[-1]))
+    if reg["axis_rounded_up"]:
+        R.count("former-duplicate-key-region:" + (impl[0] if impl[0] == "ok" else impl[-1]))
     if impl[0] == "ok":
         for what, fid, detail in oracle(case, info_in, impl[1], reg, target, ms):
             inside = False
             if fid in (F_CHUNKS, F_ZERO):
                 inside = model_bad_class(mod) == fid
-            elif fid == F_DUP:
-                # region = negation of the extracted keys_guard (C08_keys_distinct_on_guard), which must
-                # agree with the independent restatement on rationals
-                kg = KEYS_GUARD.get(_ck(size, res, target, ms))
-                if kg is None:
-                    kg = R.model.call("keys_guard", model_req(size, res, target, ms)[1]) == "true"
-                inside = not kg
             elif fid is not None:
                 inside = reg[fid]
             if inside:
@@ -259,10 +257,7 @@ def judge(R, case, impl, mod, info_in, size, res, target, ms, tiny_ok=True):
                 R.violation(what, case, _js(detail))
         return impl[1]
     # the generator failed on a valid description
-    if impl == ["Crash", "AssertionError"] and reg[F_ASSERT]:
-        R.known(F_ASSERT)
-        R.count("finding:" + F_ASSERT)
-    elif impl == ["Crash", "NotImplementedError"] and reg[F_TINY]:
+    if impl == ["Crash", "NotImplementedError"] and reg[F_TINY]:
         R.known(F_TINY)
         R.count("finding:" + F_TINY)
     else:
@@ -305,6 +300,9 @@ def run(R):
         w = f.get("witness", {})
         if "size" in w and "resolution" in w:
             corpus.append((w["size"], w["resolution"], w.get("target", 64), w.get("max_scales")))
+    corpus += [([100, 100, 100], [1.2, 1.5, 0.8], 16, None),            # former duplicate keys
+               ([1000000, 1000, 1000], [1, 1024, 2048], 2, None),       # former AssertionError
+               ([65, 5, 1], [1, 8, 32], 4, None)]                       # former silent-wrong pyramid
     # -------- generated cases
     n_main = 7000 if quick else 200000
     cases = corpus + [gen_case(rng) for _ in range(n_main)]
@@ -382,7 +380,7 @@ def run(R):
             R.count(f"tiny-pyramid:{cls}")
             mb = model_bad_class(mod)
             if cls != "exact":
-                if mb is not None and pred != "exact":
+                if cls == "error" and mb is not None and pred == "error":
                     R.known(mb)
                 else:
                     R.violation("generated info not processed correctly by compute_dyadic_downscaling",
